@@ -63,6 +63,9 @@ func buildGroovyMap(pathExprCtx *parser.PathExpressionContext) []core_domain.Cod
 
 func buildBlockStatements(closureContext *parser.ClosureContext) []core_domain.CodeDependency {
 	var results []core_domain.CodeDependency
+	if closureContext.BlockStatementsOpt().(*parser.BlockStatementsOptContext).BlockStatements() == nil {
+		return results
+	}
 	statementsContext := closureContext.BlockStatementsOpt().(*parser.BlockStatementsOptContext).BlockStatements().(*parser.BlockStatementsContext)
 	for _, blockStatement := range statementsContext.AllBlockStatement() {
 		var result *core_domain.CodeDependency = nil
@@ -101,13 +104,21 @@ func BuildDependency(argumentListContext *parser.ArgumentListContext) *core_doma
 	for _, arg := range argumentListContext.AllArgumentListElement() {
 		if reflect.TypeOf(arg.(*parser.ArgumentListElementContext).GetChild(0)).String() == "*parser.ExpressionListElementContext" {
 			listElementContext := arg.(*parser.ArgumentListElementContext).GetChild(0).(*parser.ExpressionListElementContext)
-			literalPrmrAltContext := listElementContext.
+			literalPrmrAltContext, isLiteral := listElementContext.
 				GetChild(0).
 				GetChild(0).
 				GetChild(0).
 				GetChild(0).(*parser.LiteralPrmrAltContext)
+			if !isLiteral {
+				// project(':x'), fileTree(...) and other non-string notations are skipped
+				continue
+			}
 
-			resultStr := literalPrmrAltContext.Literal().GetChild(0).(*parser.StringLiteralContext).StringLiteral().GetText()
+			stringLiteral, isString := literalPrmrAltContext.Literal().GetChild(0).(*parser.StringLiteralContext)
+			if !isString {
+				continue
+			}
+			resultStr := stringLiteral.StringLiteral().GetText()
 			result = ConvertToJDep(resultStr)
 		}
 	}
